@@ -217,8 +217,8 @@ Proof.
 Qed.
 
 Theorem limit_signals_ptrace st pgid pid : h_execved st = true -> zmem pid (h_traced st) = true ->
-  o_status (handle st pgid pid (ws_of_stop 24 0) true true) = TimeLimit /\
-  o_status (handle st pgid pid (ws_of_stop 25 0) true true) = OutputLimit.
+  o_status (handle st pgid pid (ws_of_stop 24 0) SoOk TrOk) = TimeLimit /\
+  o_status (handle st pgid pid (ws_of_stop 25 0) SoOk TrOk) = OutputLimit.
 Proof.
   intros He Ht. split.
   - destruct (ptrace_signal_delivery st pgid pid 24 ltac:(lia) ltac:(lia) He Ht) as [[_ H]|[[H _]|[H _]]];
